@@ -45,30 +45,40 @@ for m in metas:
     t+="| %s | %s | %s / %s / %s->%s | %s | %s |\n"%(m['id'],title,'ok' if c['builds'] else 'NO','ok' if c['baseline_tests_pass'] else 'flaky/NO',c['demo_on_clean_tree'],c['demo_with_patch'],fp,nowtxt.replace('|','/'))
 t+="\nFirst pass (the checks as they stood when the agents were started): %d of %d reported by the property attacked, %d of %d by some property. After the strengthening described in 8.2: %d of %d.\n\n"%(first,n,firstany,n,now,n)
 put('seeded',t+open(V+'/tools/design_seeded_notes.md').read())
-# benign
-fp={}
-try: fp=json.load(open(V+'/benign/first_pass.json'))
-except Exception: pass
-bm=[]
-for d in sorted(glob.glob(V+'/benign/C*/')):
-    try: bm.append(json.load(open(d+'meta.json')))
+# benign (two rounds)
+def bentable(dirname, scope_note):
+    fp={}
+    try: fp=json.load(open(V+'/%s/first_pass.json'%dirname))
     except Exception: pass
-nb=len(bm)
-if nb:
+    bm=[]
+    for d in sorted(glob.glob(V+'/%s/C*/'%dirname)):
+        try: bm.append(json.load(open(d+'meta.json')))
+        except Exception: pass
+    nb=len(bm)
+    if not nb: return '',[],0,0,0
     fsil=sum(1 for m in bm if fp.get(m['id'],{}).get('verdict')=='silent')
     nsil=sum(1 for m in bm if m.get('verdict')=='silent')
-    t="%d changes from %d agents (four per property). First measurement: %d of %d silent. Now: **%d of %d silent**, %d alarm.\n\n"%(nb,len(set(m['property'] for m in bm)),fsil,nb,nsil,nb,nb-nsil)
-    t+="| id | refactoring (agent's title) | first | now | properties alarming now |\n|---|---|---|---|---|\n"
+    t="| id | refactoring (agent's title) | first%s | now | properties alarming now |\n|---|---|---|---|---|\n"%scope_note
     for m in bm:
         al=sorted(set(a.split(':')[0] for a in m.get('alarms',[])))
         t+="| %s | %s | %s | %s | %s |\n"%(m['id'],(m.get('title') or '').replace('|','/')[:120],fp.get(m['id'],{}).get('verdict','?'),m.get('verdict'),', '.join(al))
+    return t,bm,nb,fsil,nsil
+t1,bm1,n1,f1,s1=bentable('benign','')
+t2,bm2,n2,f2,s2=bentable('benign2',' (own property only)')
+if n1:
+    t="**Round 1**: %d changes from 20 agents (four per property). First measurement: %d of %d silent. Now: **%d of %d silent**.\n\n"%(n1,f1,n1,s1,n1)
+    t+=t1+"\n"
+    if n2:
+        t+="**Round 2** (held out: written after the machinery had been corrected on round 1, by fresh agents asked for larger, combined clean-ups; three per property): %d changes. First measurement, attacked property only: %d of %d silent. Now, all 20 rule sets: **%d of %d silent**.\n\n"%(n2,f2,n2,s2,n2)
+        t+=t2+"\n"
     t+=open(V+'/tools/design_benign_notes.md').read()
-    rem=[m for m in bm if m.get('verdict')!='silent']
+    rem=[m for m in bm1+bm2 if m.get('verdict')!='silent']
     if rem:
         for m in rem:
+            rnd='round 1' if m in bm1 else 'round 2'
             first=(m.get('alarms') or [''])[0]
-            mm=re.match(r'(C\d\d): (violated|undecided) (R[0-9.]+) (.*?) at ',first)
-            t+="* **%s** (%s): %s\n"%(m['id'],(m.get('title') or '')[:100],('%s %s %s'%(mm.group(1),mm.group(3),mm.group(4)[:90])) if mm else first[:120])
+            mm=re.match(r'(C\d\d): (violated|undecided) (R[0-9.]+|INTERNAL|SELFTEST) (.*?) at ',first)
+            t+="* **%s** (%s; %s): %s\n"%(m['id'],rnd,(m.get('title') or '')[:100],('%s %s %s'%(mm.group(1),mm.group(3),mm.group(4)[:90])) if mm else first[:120])
         t+=open(V+'/tools/design_benign_remaining.md').read() if os.path.exists(V+'/tools/design_benign_remaining.md') else ''
     else:
         t+="Nothing: all stored changes are silent.\n"
